@@ -11,6 +11,21 @@ _ODE_NOTE = ("the strict C reader is trusted for the statement shapes it accepts
 _ODE_TECH = ("TLA+ spec OdeGen.tla model-checked with TLC over all small networks; TLC-chosen and random networks rendered by the real "
              "generator for dense/sparse/cusparse/odeint, read back with a strict C reader and validated event by event by Trace_OdeGen.tla")
 CHECKS = {
+    "C06": dict(level="model_checking", design_ref="DESIGN.md §4 C06, §11",
+        technique="TLA+ spec Rates.tla (window guard + zero-initialised k[] + override) model-checked with TLC over all window shapes and "
+                  "temperatures; files of six formats encoded with every window spelling, read and rendered by the real code; emitted "
+                  "guards parsed strictly and judged by Trace_Rates.tla at boundary probe temperatures",
+        text="TLC checks OutsideIsZero / InsideIsLaw / NoWindowAlwaysActive / Partition (adjacent windows: exactly one active at every "
+             "temperature incl. the cut points) on an integer axis; every emitted rate statement's guard must mean Tmin <= T < Tmax of the "
+             "DECLARED window at T-1, T, T+1 of both bounds, 0 and a huge T, and every consumer must zero-initialise a non-static k[].",
+        note="modifier-overridden reactions are judged by C13; temperatures scaled by 100; zero-initialisation observed textually"),
+    "C13": dict(level="model_checking", design_ref="DESIGN.md §4 C13, §11",
+        technique="TLA+ specs Rates.tla (Override / re-index rule) and OdeGen.tla (Modifier action) model-checked with TLC; encoded "
+                  "networks with index maps and modifier sets rendered by the real code and judged by Trace_Rates.tla / Trace_OdeGen.tla",
+        text="TLC checks OnlyTargetsChanged over all index maps (absent/present/shared/all -1) x key sets, and the modifier delta of the "
+             "ODE accumulation; each emitted rate statement must be overridden iff its (re-)index is a key, with that key's text, and "
+             "each ODE-modifier term must be + (factor) * prod(deps) on the named species with the exact derivative terms.",
+        note="the configuration-file path of the modifiers is covered by C20's check when built"),
     "C17": dict(level="model_checking", design_ref="DESIGN.md §4 C17, §11",
         technique="TLA+ spec Globals.tla (installed-context model of the process-global tables) model-checked with TLC; TLC-simulated "
                   "interleavings of operations on two networks replayed each in one fresh Python process; every render compared with "
